@@ -488,6 +488,34 @@ def whole_function_obligations(rep):
             if tname == "xla_client":
                 rep.add(core.decided(oid.replace("/bound-before-use/", "/named-constants-rendered/"), PROP, not named, functions=("targets.xla_client.constant_to_target",), text="named constants are rendered by an expression of the target, not left as bare names", detail=dict(problems=named[:4]), meta=dict(target=tname, kind="named-constants " + cname, problems=sorted({re.match(r"`\$?(\w+)`", pr).group(1) for pr in named}))))
 
+    # alternative constant context: the VALUE of a numeric constant survives the C++ constant printer
+    import math as _math
+
+    for v in (float("inf"), float("-inf"), 2.5, -2.5, -0.0, 0.0, 1e300, 3):
+        oid = "C06/O5/xla_client/alt-constant-value/%r" % (v,)
+        try:
+            with warnings.catch_warnings():
+                warnings.simplefilter("ignore")
+                import contextlib
+                import io
+
+                with contextlib.redirect_stdout(io.StringIO()):
+                    ctx = fa.Context(paths=[A], enable_alt=True, default_constant_type="DType")
+                    src = ctx.trace(lambda ctx, x: x * ctx.constant(v, x), float).tostring(T.xla_client)
+            m = re.search(r"ScalarLike\(\s*x\s*,\s*(.*?)\)\s*\)\s*;", src.replace("\n", " "), re.S)
+            txt = m.group(1) if m else None
+            if txt is None:
+                prob = "no ScalarLike(x, <value>) found in: %s" % src[-200:]
+            else:
+                py = re.sub(r"std::numeric_limits<\w+>::infinity\(\)", "math.inf", txt)
+                py = re.sub(r"static_cast<\w+>|\bDType\b", "", py)
+                got = eval(py, {"math": _math})
+                same = (got == v and _math.copysign(1, got) == _math.copysign(1, v))
+                prob = None if same else "value text `%s` denotes %r, the graph constant is %r" % (txt.strip(), got, v)
+        except Exception as e:
+            prob = "raised %r" % (e,)
+        rep.add(core.decided(oid, PROP, prob is None, functions=("targets.cpp.Printer.make_constant", "targets.xla_client.Printer"), text="the compile-time value printed for a numeric constant denotes that constant", detail=dict(problem=prob), meta=dict(target="xla_client", kind="alt-constant-value %r" % (v,), problems=[prob] if prob else [])))
+
     # one Context used for two signatures of the same function (xla_client): parameters and body must agree on names
     def sel(ctx, x, y):
         return ctx.select(abs(x) < abs(y), x, y)
